@@ -1249,7 +1249,9 @@ class Engine:
                 if not (e is None or isinstance(e, Ref) or is_z3(e) or isinstance(e, (int, float, fractions.Fraction))):
                     raise OutOfSubset('list element %r' % (e,))
                 elems.append(e)
-            if all((is_z3(e) and e.sort() == INT) or (isinstance(e, int) and not isinstance(e, bool)) for e in elems):
+            stored_into = any(isinstance(n_, (ast.Assign, ast.AugAssign)) and any(isinstance(t_, ast.Subscript) and isinstance(t_.value, ast.Name) and t_.value.id == node.targets[0].id
+                                                                                    for t_ in (n_.targets if isinstance(n_, ast.Assign) else [n_.target])) for n_ in ast.walk(self.fd))
+            if not stored_into and all((is_z3(e) and e.sort() == INT) or (isinstance(e, int) and not isinstance(e, bool)) for e in elems):
                 t_ = fresh('lst', A1I)          # a list of integers: array model, every element addressable
                 for k_, e in enumerate(elems):
                     t_ = z3.Store(t_, k_, to_z3(e, INT))
